@@ -85,8 +85,9 @@ package tracing
 
 //@ func ITracer.Subscribe
 //@   assumed
-//@   flag emits opaque
+//@   modifies nothing
 //@   flag allocs
+//@   emits Call(code("ITracer.Subscribe"), this)
 //@   ensures result != nil
 //@ func ITracer.Unsubscribe
 //@   assumed
